@@ -81,6 +81,15 @@ pub fn raws<S: Sch>() -> Vec<NB> {
         NB::new("empty-list", &[0xc0]),
         NB::new("list2", &[0xc2, 0x01, 0x02]),
         NB::new("nested-list", &[0xc4, 0xc2, 0x01, 0x02, 0x03]),
+        // valid deeper nestings: [[[]],a]   [[a,[b]],c]   [a,[b,[c,[d]]]]
+        NB::new("nest[[[]],a]", &[0xc3, 0xc1, 0xc0, 0x61]),
+        NB::new("nest[[a,[b]],c]", &[0xc5, 0xc3, 0x61, 0xc1, 0x62, 0x63]),
+        NB::new("nest[a,[b,[c,[d]]]]", &[0xc7, 0x61, 0xc5, 0x62, 0xc3, 0x63, 0xc1, 0x64]),
+        // lists whose header is fine but whose interior is not canonical RLP (open region on the way in;
+        // whatever is stored must decode again)
+        NB::new("list-truncated-interior", &[0xc1, 0x81]),
+        NB::new("list-noncanon-interior", &[0xc2, 0x81, 0x05]),
+        NB::new("list-overlong-interior", &[0xc2, 0xb8, 0x00]),
         NB::new("noncanon-single", &[0x81, 0x05]),
         NB::new("longform-short", &[0xb8, 0x02, 0x01, 0x02]),
         NB::new("truncated", &[0x85, 0x01, 0x02]),
@@ -170,6 +179,22 @@ pub fn full_actions<S: Sch>() -> Vec<Act> {
         for r in raws::<S>() {
             a.push(Act::InsertRaw { key: k.clone(), raw: r.clone() });
         }
+    }
+    // long, binary and UTF-8-boundary keys (formatters abbreviate / decode keys), a few values each
+    let mut k79 = vec![b'k'; 79];
+    k79.extend_from_slice("é".as_bytes());
+    for key in [
+        NB::new("key-binary27", &[0xff; 27]),
+        NB::new("key-binary40", &[0x80; 40]),
+        NB::new("key-binary100", &[0xfe; 100]),
+        NB::new("key79+2byte-char", &k79),
+        NB::new("key-utf8-200", &"ü".repeat(100).into_bytes()),
+        NB::new("key-ascii-150", &[b'q'; 150]),
+    ] {
+        for r in raws::<S>().into_iter().filter(|r| ["int1", "list2", "str56"].contains(&r.l.as_str())) {
+            a.push(Act::InsertRaw { key: key.clone(), raw: r });
+        }
+        a.push(Act::RemoveKey(key.clone()));
     }
     // typed insert on custom and reserved keys
     for key in ["a", "tcp", "udp6", "ip", "id"] {
